@@ -423,6 +423,8 @@ func (r *Replayer) runQuery(k int, c *Concrete, q *Query) {
 				return
 			}
 		}
+	case "export", "import":
+		r.runExportImport(k, c, q, fail)
 	default:
 		r.miss(k, "harness", "known query kind", q.K)
 	}
